@@ -240,6 +240,6 @@ def run(res: C.Result):
         direct_oracle={"evaluations": len(payload["cases"]), "failures": len(res.failures)},
         input_distribution=stats)
     res.samples += [{"tree": cases[i][1], "impl": results[i]} for i in (0, len(cases) // 3, len(cases) // 2, len(cases) - 1)]
-    res.assumptions += ["leaf classes used: DisplacementMove, ExchangeMove, CellMove, HamiltonianDisplacementMove, a user "
+    res.assumptions += ["leaf classes used: DisplacementMove, ExchangeMove (every other leaf object: an empty user subclass of these), CellMove, HamiltonianDisplacementMove, a user "
                         "subclass of BaseMove; bare protocol objects (no BaseMove) define no + and are out of scope",
                         "non-integer multipliers are checked on the implementation only (the model's n is a Z)"]
